@@ -37,7 +37,20 @@ def run(repo: Repo, chk: Check, thorough: bool = False) -> None:
     url = repo.func(f'{DOC}.url')
     po = [n for n in url.walk() if isinstance(n, ast.Assign) and norm(n.value) == 'self.page_object']
     pvar = po[0].targets[0].id if po and isinstance(po[0].targets[0], ast.Name) else None
-    fstr = [n for n in url.walk() if isinstance(n, ast.JoinedStr)]
+    # the page-name logic may be delegated to a private helper method (`page_url = self._page_filename(page_obj)`): the implementation of url is url plus
+    # such helpers, and the page object goes under the name of the parameter that receives it
+    from ..util import scope_nodes as _scope_nodes
+    UW = _scope_nodes(repo, url)
+    url_helpers = [g for g in repo.funcs.values() if g.cls is url.cls and g is not url and g.name.startswith('_') and any(call_name(c) == g.name for c in calls_in(url))]
+    pvars = {pvar} if pvar else set()
+    for g in url_helpers:
+        for c in calls_in(url):
+            if call_name(c) == g.name:
+                gp = [x.arg for x in g.params() if x.arg not in ('self', 'cls')]
+                for i_, a_ in enumerate(c.args):
+                    if isinstance(a_, ast.Name) and a_.id == pvar and i_ < len(gp):
+                        pvars.add(gp[i_])
+    fstr = [n for n in UW if isinstance(n, ast.JoinedStr)]
 
     def leaves(e: ast.AST) -> List[ast.AST]:
         """Leaves of a string-building expression (f-string parts, + operands)."""
@@ -52,21 +65,24 @@ def run(repo: Repo, chk: Check, thorough: bool = False) -> None:
     # every value assigned to the page-url variable (other than the index.html constant) is built from constants and
     # quote(page_object.fullName()) only, and ends with .html
     # the page-url variable: the local that receives the 'index.html' constant
-    puvar = next((t.id for n in url.walk() if isinstance(n, ast.Assign) and isinstance(n.value, ast.Constant) and n.value.value == 'index.html'
+    puvar = next((t.id for n in UW if isinstance(n, ast.Assign) and isinstance(n.value, ast.Constant) and n.value.value == 'index.html'
                   for t in n.targets if isinstance(t, ast.Name)), None)
-    pu_assigns = [n for n in url.walk() if isinstance(n, ast.Assign) and isinstance(n.targets[0], ast.Name) and n.targets[0].id == puvar]
+    pu_assigns = [n for n in UW if isinstance(n, ast.Assign) and isinstance(n.targets[0], ast.Name) and n.targets[0].id == puvar]
     built = [n.value for n in pu_assigns if not (isinstance(n.value, ast.Constant) and n.value.value == 'index.html')]
+    built += [r.value for g in url_helpers for r in g.walk() if isinstance(r, ast.Return) and r.value is not None and
+              not (isinstance(r.value, ast.Constant) and r.value.value == 'index.html') and any(call_name(c) == g.name and isinstance(getattr(c, '_parent', None), ast.Assign) and
+                                                                                                   any(isinstance(t, ast.Name) for t in c._parent.targets) for c in calls_in(url))]  # type: ignore[attr-defined]
     def is_quoted_page_name(x: ast.AST) -> bool:
         """quote(E) where E is page_object.fullName(), possibly through a local that only ever holds that name plus constant suffixes."""
         if not (isinstance(x, ast.Call) and call_name(x) == 'quote' and len(x.args) == 1):
             return False
         e = x.args[0]
-        if norm(e) == f'{pvar}.fullName()':
+        if any(norm(e) == f'{pv_}.fullName()' for pv_ in pvars):
             return True
         if isinstance(e, ast.Name):
-            sets = [n for n in url.walk() if isinstance(n, (ast.Assign, ast.AugAssign)) and
+            sets = [n for n in UW if isinstance(n, (ast.Assign, ast.AugAssign)) and
                     any(isinstance(t, ast.Name) and t.id == e.id for t in (n.targets if isinstance(n, ast.Assign) else [n.target]))]
-            return bool(sets) and all((isinstance(n, ast.Assign) and norm(n.value) == f'{pvar}.fullName()') or
+            return bool(sets) and all((isinstance(n, ast.Assign) and any(norm(n.value) == f'{pv_}.fullName()' for pv_ in pvars)) or
                                       (isinstance(n, ast.AugAssign) and isinstance(n.op, ast.Add) and isinstance(n.value, ast.Constant)) for n in sets) and \
                 any(isinstance(n, ast.Assign) for n in sets)
         return False
@@ -82,13 +98,13 @@ def run(repo: Repo, chk: Check, thorough: bool = False) -> None:
     chk.ob('R11.1', f'{DOC}.url :: page part derives from page_object only', ok,
            f"quote({pvar}.fullName()) + '.html'" if ok else 'the page file name is no longer quote(page_object.fullName()) + ".html"', url.loc)
     # the single-root special case compares the qualified name
-    cmp_ = [n for n in url.walk() if isinstance(n, ast.Compare) and 'root_names' in norm(n)]
+    cmp_ = [n for n in UW if isinstance(n, ast.Compare) and 'root_names' in norm(n)]
     def holds_full_name(e: ast.AST) -> bool:
-        if norm(e) == f'{pvar}.fullName()':
+        if any(norm(e) == f'{pv_}.fullName()' for pv_ in pvars):
             return True
         if isinstance(e, ast.Name):
-            vals = [n.value for n in url.walk() if isinstance(n, ast.Assign) and any(isinstance(t, ast.Name) and t.id == e.id for t in n.targets)]
-            return bool(vals) and all(norm(v) == f'{pvar}.fullName()' for v in vals)
+            vals = [n.value for n in UW if isinstance(n, ast.Assign) and any(isinstance(t, ast.Name) and t.id == e.id for t in n.targets)]
+            return bool(vals) and all(any(norm(v) == f'{pv_}.fullName()' for pv_ in pvars) for v in vals)
         return False
     ok = bool(cmp_) and all(isinstance(c.comparators[0], ast.List) and len(c.comparators[0].elts) == 1 and
                             holds_full_name(c.comparators[0].elts[0]) for c in cmp_)
@@ -96,7 +112,7 @@ def run(repo: Repo, chk: Check, thorough: bool = False) -> None:
            'list(root_names) == [page_object.fullName()]' if ok else
            f'`{norm(cmp_[0]) if cmp_ else "?"}`: a sub-module/class whose short name equals the single root\'s name also gets index.html and '
            'overwrites the root page; its own page is never written', url.loc)
-    idx = [c for c in ast.walk(url.node) if isinstance(c, ast.Constant) and c.value == 'index.html']
+    idx = [c for c in UW if isinstance(c, ast.Constant) and c.value == 'index.html']
     chk.ob('R11.1', f'{DOC}.url :: single root is written to index.html', bool(idx), "page_url = 'index.html'", url.loc)
     frag = [j for j in fstr if any(isinstance(v, ast.Constant) and '#' in str(v.value) for v in j.values)]
     frag_attr = None
@@ -466,7 +482,7 @@ def run(repo: Repo, chk: Check, thorough: bool = False) -> None:
     # to the same file (and a single root called `index` makes the compatibility symlink point at itself: OSError, the run aborts)
     urlf = repo.func(f'{DOC}.url')
     reserved: Set[str] = set()
-    for n in urlf.walk():
+    for n in _scope_nodes(repo, urlf):
         if isinstance(n, ast.Compare) and len(n.ops) == 1 and isinstance(n.ops[0], (ast.In, ast.NotIn)):
             coll = n.comparators[0]
             val = coll
@@ -542,6 +558,9 @@ def run(repo: Repo, chk: Check, thorough: bool = False) -> None:
             if call_name(c) != 'taglink' or len(c.args) < 2:
                 continue
             pu = c.args[1]
+            if isinstance(pu, ast.Name):   # a named intermediate (`current_page_url = documented.page_object.url`)
+                from ..util import single_value as _sv
+                pu = _sv(f, pu.id) or pu
             if not (isinstance(pu, ast.Attribute) and pu.attr == 'url'):
                 continue
             n_pu += 1
